@@ -34,7 +34,7 @@ ASSUMPTIONS = [
     "SVG 2 chapter 10 equivalent paths transcribed in this module are the oracle.",
     "The quarter-ellipse constructor Arc(start, end, rx=, ry=) and the parametrised Arc(start, end, center, rx=, ry=, rotation=, sweep=) are trusted to produce the arc through their end points (numeric clause).",
 ]
-FLOORS = {"R06.1": 25, "R06.2": 7, "R06.3": 5, "R06.4": 1, "R06.6": 3}
+FLOORS = {"R06.1": 25, "R06.2": 7, "R06.3": 5, "R06.4": 1, "R06.6": 3, "R06.7": 10}
 
 
 def run(ctx):
@@ -44,6 +44,7 @@ def run(ctx):
     ctx.rule("R06.4", "save/restore of apply across decomposition")
     ctx.rule("R06.5", "transformed decomposition by multiplication")
     ctx.rule("R06.6", "interchangeability plumbing")
+    ctx.rule("R06.7", "abs(shape): reifying a rect or round shape folds the matrix into its attributes exactly (obligations shared with C02)")
     rect_tables(ctx)
     line_and_poly(ctx)
     round_shape(ctx)
@@ -54,6 +55,9 @@ def run(ctx):
     direction_by_determinant(ctx)
     plumbing(ctx)
     transformed_selection(ctx)
+    from . import c02
+
+    c02.reify_algebra(ctx.renamed("R06.7"))
 
 
 SEG_KINDS = ("Move", "Line", "Arc", "Close", "QuadraticBezier", "CubicBezier")
@@ -307,13 +311,17 @@ def corner_table(ctx):
         (False, False): (rW, rH),
     }
     for (rx_none, ry_none), (erx, ery) in cells.items():
-        for zero in (False, True):
-            if zero and rx_none and ry_none:
-                continue
-            cons = "Rect._validate_rect[rx %s, ry %s%s]" % ("auto" if rx_none else "given", "auto" if ry_none else "given", ", one is zero" if zero else "")
+        both_auto = rx_none and ry_none
+        # which of the two resolved radii is zero when the clamp is reached: none; with both given, either one or both; with
+        # one given, the copy makes them equal, so both
+        scen = [(False, None)]
+        if not both_auto:
+            scen += [(True, z) for z in ((("rx",), ("ry",), ("rx", "ry")) if not rx_none and not ry_none else (("rx", "ry"),))]
+        for zero, which in scen:
+            cons = "Rect._validate_rect[rx %s, ry %s%s]" % ("auto" if rx_none else "given", "auto" if ry_none else "given",
+                                                             "" if not zero else (", one is zero" if which == ("rx", "ry") and (rx_none or ry_none) else ", zero: %s" % "+".join(which)))
             facts = Facts(nulls={"rx": rx_none, "ry": ry_none})
-            both_auto = rx_none and ry_none
-            facts.truth["rx == 0 or ry == 0"] = zero or both_auto
+            facts.zeros = {"rx": both_auto or (zero and "rx" in which), "ry": both_auto or (zero and "ry" in which)}
             alg = Alg(call_hook=hook)
             out = walk(body, facts, alg, ctx.m, "R06.2", cons)
             ctx.need(out.kind == "fall", "R06.2", "%s: unexpected exit" % cons)
